@@ -414,6 +414,7 @@ Section Step.
                     else if has_macro E ident then mret (None, SBound true ident obj :: st2)
                     else mret (None, push (VErr (EAttribute ident)) st2)
                 end
+            | VErr _ => mret (None, push obj st2)
             | _ =>
                 if negb (e_bound E) then mfail ERuntime
                 else if has_func E ident then mret (None, SBound false ident obj :: st2)
@@ -445,6 +446,7 @@ Section Step.
         | SVal (VType tn) =>
             do vals <- resolve_args args;
             do r <- mlift (construct_type (e_now E) tn vals); mret (None, push r st2)
+        | SVal (VErr e) => mret (None, push (VErr e) st2)
         | SVal _ => mret (None, push (VErr ERuntime) st2)
         end
     | IFmt n =>
